@@ -55,6 +55,11 @@ func semaAcquire(addr *uint32) {
 				st.mu.Unlock()
 				return
 			}
+			if v != 0 {
+				// Lost a race against another acquirer; the count may still
+				// be positive, and nobody will signal us for it.
+				continue
+			}
 			st.waiters++
 			st.cond.Wait(&st.mu)
 			st.waiters--
